@@ -174,6 +174,15 @@ impl Deserializable for Context {
 
         // read total number of constraints
         let num_constraints = source.read_usize()?;
+        // the constructor accepts 1..=u32::MAX constraints and the count is bound into the public
+        // coin seed as a 32-bit value; larger values would be indistinguishable from their low
+        // 32 bits
+        if num_constraints == 0 || num_constraints > u32::MAX as usize {
+            return Err(DeserializationError::InvalidValue(format!(
+                "number of constraints must be between 1 and {}, but was {num_constraints}",
+                u32::MAX
+            )));
+        }
 
         Ok(Context {
             trace_info,
